@@ -1,4 +1,5 @@
 """Host-side value representation of the MIR VM."""
+import re
 import z3
 
 F64 = z3.Float64()
@@ -146,7 +147,7 @@ class SymStr:
     """opaque string (String or &str): a z3 sequence term; all strings, unbounded"""
     __slots__ = ('term',)
 
-    def __init__(self, term): self.term = term if not isinstance(term, str) else z3.StringVal(term)
+    def __init__(self, term): self.term = term if not isinstance(term, str) else zs(term)
 
     def __repr__(self): return f'SymStr({self.term})'
 
@@ -191,3 +192,18 @@ def wrap_int(v, bits, signed):
 
 
 def is_sym(v): return isinstance(v, z3.ExprRef)
+
+
+def zs(s):
+    """z3 string literal of a Python str (z3 interprets \\u{..} escapes in its input: escape backslashes and non-Latin-1)"""
+    if s.isascii() and '\\' not in s and s.isprintable(): return z3.StringVal(s)
+    return z3.StringVal(''.join(c if (32 <= ord(c) < 127 and c != '\\') else '\\u{%x}' % ord(c) for c in s))
+
+
+_UESC = re.compile(r'\\u\{([0-9a-fA-F]+)\}')
+
+
+def zstr(t):
+    """Python str of a z3 string value (undoes z3's \\u{..} output escapes)"""
+    return _UESC.sub(lambda m: chr(int(m.group(1), 16)), t.as_string())
+
